@@ -45,6 +45,7 @@ type CmdLine struct {
 	DElem    int    `json:"delem"`
 	FilterFn bool   `json:"filterfn"`
 	Panic    string `json:"panic"`
+	Second   bool   `json:"second"` // second run of the shape on the same function data object
 	Ok       bool   `json:"ok"`
 	What     string `json:"what"`
 }
@@ -218,18 +219,26 @@ func cmdRun(args []string) {
 	}
 	shapes := []string{"read", "read+sel", "read+elem", "reply", "full", "partial", "partial+sel", "delete+sel", "delete+elem",
 		// combinations (what FeatureLocal.UpdateData passes on when it notifies)
-		"delete+selelem", "delete+sel&partial+sel", "delete+elem&partial+sel", "delete+selelem&partial+sel"}
+		"delete+selelem", "delete+sel&partial+sel", "delete+elem&partial+sel", "delete+selelem&partial+sel",
+		// a selector / elements object without any field set ("all")
+		"read+sel0", "partial+sel0", "delete+sel0", "read+elem0", "delete+elem0"}
+	// the same shapes once more in reverse order on the same function data objects: what one command left behind must
+	// not show in the next
+	for i := len(shapes) - 1; i >= 0; i-- {
+		shapes = append(shapes, shapes[i]+"#2")
+	}
 	for _, fn := range fns {
 		fd := fds[fn]
 		selF, hasSel := filterFieldFor(fn, "Selectors")
 		elF, hasEl := filterFieldFor(fn, "Elements")
 		// a value for the function, so that reply / notify carry a payload
 		seed := 1
-		for _, shape := range shapes {
+		for _, shapeRun := range shapes {
+			shape := strings.TrimSuffix(shapeRun, "#2")
 			if (strings.Contains(shape, "sel") && !hasSel) || (strings.Contains(shape, "elem") && !hasEl) {
 				continue
 			}
-			line := CmdLine{T: "cmd", Fn: fn, Shape: shape}
+			line := CmdLine{T: "cmd", Fn: fn, Shape: shape, Second: shapeRun != shape}
 			func() {
 				defer func() {
 					if r := recover(); r != nil {
@@ -237,19 +246,23 @@ func cmdRun(args []string) {
 					}
 				}()
 				var sel, el any
-				if strings.Contains(shape, "sel") {
+				if strings.Contains(shape, "sel0") {
+					sel = reflect.New(selF.Type.Elem()).Interface()
+				} else if strings.Contains(shape, "sel") {
 					sel = firstFieldSet(selF.Type.Elem()).Interface()
 				}
-				if strings.Contains(shape, "elem") {
+				if strings.Contains(shape, "elem0") {
+					el = reflect.New(elF.Type.Elem()).Interface()
+				} else if strings.Contains(shape, "elem") {
 					el = firstFieldSet(elF.Type.Elem()).Interface()
 				}
 				var cmd model.CmdType
 				switch shape {
 				case "read":
 					cmd = fd.ReadCmdType(nil, nil)
-				case "read+sel":
+				case "read+sel", "read+sel0":
 					cmd = fd.ReadCmdType(sel, nil)
-				case "read+elem":
+				case "read+elem", "read+elem0":
 					cmd = fd.ReadCmdType(nil, el)
 				case "reply":
 					cmd = fd.ReplyCmdType(false)
@@ -257,11 +270,11 @@ func cmdRun(args []string) {
 					cmd = fd.NotifyOrWriteCmdType(nil, nil, false, nil)
 				case "partial":
 					cmd = fd.NotifyOrWriteCmdType(nil, nil, true, nil)
-				case "partial+sel":
+				case "partial+sel", "partial+sel0":
 					cmd = fd.NotifyOrWriteCmdType(nil, sel, false, nil)
-				case "delete+sel":
+				case "delete+sel", "delete+sel0":
 					cmd = fd.NotifyOrWriteCmdType(sel, nil, false, nil)
-				case "delete+elem":
+				case "delete+elem", "delete+elem0":
 					cmd = fd.NotifyOrWriteCmdType(nil, nil, false, el)
 				case "delete+selelem":
 					cmd = fd.NotifyOrWriteCmdType(sel, nil, false, el)
